@@ -1309,10 +1309,10 @@ class Exec(object):
         return self.call(f, args, kwargs, e.lineno)
 
     def e_ListComp(self, e, fr):
-        return list(self._comp(e, fr))
+        return self._comp(e, fr)
 
     def e_GeneratorExp(self, e, fr):
-        return list(self._comp(e, fr))
+        return self._comp(e, fr)
 
     def _comp(self, e, fr):
         if len(e.generators) != 1:
@@ -1320,7 +1320,32 @@ class Exec(object):
         g = e.generators[0]
         out = []
         sub = Frame(fr.mod, fr.qual, fr.cls, parent=fr)
-        for item in self.iterate(self.eval(g.iter, fr), e.lineno):
+        src = self.eval(g.iter, fr)
+        if isinstance(src, SIntList):
+            # [f(d) for d in l] over a list of unknown length: the element expression is executed once on an arbitrary
+            # element (index k, 0 <= k < len l); an exception it can raise is raised (some element raises it); only the
+            # shape `one octet whose value is the element` is understood, and gives the byte string bytes_of_list(l)
+            if src.width != 1 or g.ifs or not isinstance(g.target, ast.Name):
+                raise EngineLimit("comprehension over a symbolic list (line %s)" % e.lineno)
+            k = self.fresh_int("k")
+            if not self.branch_pruned(SInt(sym.LLEN(src.t)) >= 1):
+                return []
+            self.pc.append(z3.And(0 <= k.t, k.t < sym.LLEN(src.t)))
+            d = SInt(sym.LAT(src.t, k.t))
+            self.assign(g.target, d, sub)
+            r = self.eval(e.elt, sub)
+            if isinstance(r, SBytes) and z3.eq(z3.simplify(r.t), z3.simplify(sym.UNIT(d.t))):
+                # no element raised on this path: every element is an octet (the fork above was taken for an arbitrary k)
+                j = z3.Int("octets!j")
+                self.pc.append(z3.ForAll([j], z3.Implies(z3.And(0 <= j, j < sym.LLEN(src.t)), z3.And(0 <= sym.LAT(src.t, j), sym.LAT(src.t, j) <= 255)),
+                                         patterns=[sym.LAT(src.t, j)], qid="all_octets"))
+                return OctetList(src)
+            raise EngineLimit("comprehension over a symbolic list with an element expression other than int2byte(d) (line %s)" % e.lineno)
+        return list(self._comp_items(e, g, src, fr, sub))
+
+    def _comp_items(self, e, g, src, fr, sub):
+        out = []
+        for item in self.iterate(src, e.lineno):
             self.assign(g.target, item, sub)
             if all(self.is_true(self.eval(c, sub)) for c in g.ifs):
                 out.append(self.eval(e.elt, sub))
@@ -1580,7 +1605,22 @@ class Exec(object):
                 self.raise_("IndexError", line)
             obj[i] = v
             return
+        if isinstance(obj, SIntList) and obj.width == 1 and isinstance(v, (int, SInt)) and not isinstance(v, bool):
+            j = self.norm_index(i, SInt(sym.LLEN(obj.t)), line)
+            if self.interference is not None:
+                self.interference.on_mutate(self, obj, line)
+            obj.set_terms([sym.LSET(obj.t, T(self.name_int(j, "idx")), T(self.name_int(v, "elt")))])
+            return
         raise EngineLimit("subscript store on %s" % type(obj).__name__)
+
+    def list_tail(self, l, line):
+        """l[1:] of a non-empty symbolic list, as a fresh list constrained pointwise (no tail function in the theory)"""
+        t = self.fresh_list("tail")
+        i = z3.Int("tail!i")
+        self.pc.append(sym.LLEN(t.t) == sym.LLEN(l.t) - 1)
+        self.pc.append(z3.ForAll([i], z3.Implies(z3.And(0 <= i, i < sym.LLEN(t.t)), sym.LAT(t.t, i) == sym.LAT(l.t, i + 1)), patterns=[sym.LAT(t.t, i)], qid="list_tail"))
+        self.pc.append(l.t == sym.LCONS(sym.LAT(l.t, 0), t.t))
+        return t
 
     def s_If(self, st, fr):
         if self.is_true(self.eval(st.test, fr)):
@@ -1806,6 +1846,13 @@ class ZipView(object):
 class DictView(object):
     def __init__(self, obj):
         self.obj = obj
+
+
+class OctetList(object):
+    """[int2byte(d) for d in l] for a symbolic list l of octets: only b"".join(...) is defined on it"""
+
+    def __init__(self, src):
+        self.src = SIntList(*src.ts)
 
 
 class SeqView(object):
